@@ -1061,7 +1061,9 @@ impl Project {
             items.push(format!("struct {g}[T] {{\n    v: T,\n}}\n"));
         }
         if pk.externs {
-            items.push("extern type Duration\n\nextern \"go\" \"time\" sleep(d: Duration) -> unit\nextern \"go\" \"time\" duration(nanos: int32) -> Duration\n\nfn zz_nap(n: int32) -> int32 {\n    sleep(duration(n));\n    n\n}\n".to_string());
+            // externs from several Go packages; the calls into `strings` and `os` are reachable
+            // (they survive dead-code elimination and need their imports) but never executed
+            items.push("extern type Duration\n\nextern \"go\" \"time\" sleep(d: Duration) -> unit\nextern \"go\" \"time\" duration(nanos: int32) -> Duration\nextern \"go\" \"strings\" to_upper(s: string) -> string\nextern \"go\" \"os\" getpid() -> int32\nextern \"go\" \"path\" base(s: string) -> string\n\nfn zz_nap(n: int32) -> int32 {\n    sleep(duration(n));\n    if n < 0 - 2147483000 {\n        string_println(to_upper(base(\"x\")));\n        string_println(int32_to_string(getpid()))\n    } else {\n        ()\n    };\n    n\n}\n".to_string());
         }
         for t in &pk.traits {
             let ms: Vec<String> = t
